@@ -693,6 +693,16 @@ class Session:
                 (holder.kind == "m") != (tail[0][0] == "k"):
             self.stats["skipped"] += 1
             return
+        try:
+            live = snapshot.get_at(self.doc, base)
+        except (KeyError, IndexError, TypeError):
+            live = None
+        if isinstance(live, dict) and tail[0][0] == "k" and \
+                any(snapshot.typed(k) == tail[0][1] for k in live.keys()):
+            # present through a YAML merge key: the path exists already,
+            # this is not a creation
+            self.stats["skipped"] += 1
+            return
         path = render(base + tail, oper.get("sep", "/"))
         value = oper["value"]
         pre_nodes = {p: model.typed_of(n) for p, n in model.walk(tree)}
